@@ -262,7 +262,11 @@ func c10scenario(kind string, steps, bound int, reader bool, go123 bool, alphabe
 				script = append(script, op)
 				switch op {
 				case "SRD(zero)":
-					setRD(time.Time{}, 0)
+					if i%2 == 1 {
+						setRD(time.Time{}.Local(), 0) // the zero instant spelled with a location: still "no deadline"
+					} else {
+						setRD(time.Time{}, 0)
+					}
 				case "SRD(past)":
 					t := zzvsched.Now().Add(-time.Millisecond)
 					setRD(t, t.Sub(zzvsched.Base))
@@ -512,7 +516,7 @@ func init() {
 			}
 			return out
 		},
-		Rule: "for each connection type (packet buffer, dpipe, udp.Conn over the fake socket, vnet socket via loopback and via a router, Bridge endpoint with a ticking peer): every history of the stated length over {SetReadDeadline(zero|past|+10ms|+100ms), idle 20/200 ms, deliver one datagram, Read}, sequentially and with a second thread blocked in Read, x every schedule within the deviation bound; vnet sockets under both channel-timer semantics (legacy and go1.23); plus, per connection type, two threads calling SetReadDeadline at the same time (optionally over an armed earlier deadline), after which a +10 ms deadline must release a blocked read, and not early",
+		Rule: "for each connection type (packet buffer, dpipe, udp.Conn over the fake socket, vnet socket via loopback and via a router, Bridge endpoint with a ticking peer): every history of the stated length over {SetReadDeadline(zero - at odd steps spelled with a location - |past|+10ms|+100ms), idle 20/200 ms, deliver one datagram, Read}, sequentially and with a second thread blocked in Read, x every schedule within the deviation bound; vnet sockets under both channel-timer semantics (legacy and go1.23); plus, per connection type, two threads calling SetReadDeadline at the same time (optionally over an armed earlier deadline), after which a +10 ms deadline must release a blocked read, and not early",
 		Assumptions: []string{"a timeout is judged strictly (never before a non-zero deadline that was in force during the call); a required timeout is asserted only after the system settled past the deadline",
 			"OS socket replaced by zzvsched/fakenet for udp.Conn"}})
 }
